@@ -6,7 +6,9 @@
 (*   trace  = [net, v0, steps]                                               *)
 (*   step   = [act |-> "sim",  status, vals]                                 *)
 (*          | [act |-> "poke", w, v]                                         *)
-(*          | [act |-> "clk",  n, vals, st, total, prepared]                 *)
+(*          | [act |-> "clk",  n, vals, st, total, prepared, notified, seen] *)
+(*            notified = listener notifications during the call, seen = the  *)
+(*            wire values at each of them (recorded for short calls)         *)
 (* The harness may have imposed any visit order of drivers/clockables and    *)
 (* any splitting into clk(n) calls: the reference does not depend on them.   *)
 EXTENDS Kernel, Json, IOUtils
@@ -73,6 +75,10 @@ ClkStep ==
               THEN bad' = TRUE /\ Emit("V", "prepared-not-empty", Step.prepared)
               ELSE IF Step.total # cycles + Step.n
               THEN bad' = TRUE /\ Emit("V", "total-clks", Step.total)
+              ELSE IF "notified" \in DOMAIN Step /\ Step.notified # Step.n
+              THEN bad' = TRUE /\ Emit("V", "listener-once-per-cycle", Step.notified)
+              ELSE IF "seen" \in DOMAIN Step /\ Step.seen # CyclesSeen(v0, st, order, Step.n)
+              THEN bad' = TRUE /\ Emit("V", "listener-sees-each-cycle", Step.n)
               ELSE IF \E k \in 1..Len(Step.st) : Step.st[k] # c.s[k]
               THEN bad' = FALSE /\ Emit("D", "leaf-state", CHOOSE k \in 1..Len(Step.st) : Step.st[k] # c.s[k])
               ELSE bad' = FALSE
